@@ -260,6 +260,35 @@ def part_match(ctx: Ctx, rng: random.Random) -> int:
                                       "names": len(names), "pairs": len(rows) * len(names),
                                       "patterns_raising_re_error": sum(r["e"] for r in rows)})
 
+    # [seq] against [!seq], every seq up to 3 characters, over one-character names: complements of each other, and one
+    # consistent reading of an inner '-' (the only place where patterns with a '-' inside brackets are JUDGED)
+    chars1 = list(PAT_ALPHA)
+    bodies = [b for b in seqs(PAT_ALPHA, 3) if b and b[0] != "!" and "]" not in b[1:]]
+    srows = []
+    for b in bodies:
+        pos, neg = real_match_row("[" + b + "]", chars1), real_match_row("[!" + b + "]", chars1)
+        srows.append({"b": list(b), "pos": pos["m"], "neg": neg["m"], "epos": pos["e"], "eneg": neg["e"]})
+    reports = run_table(ctx, "sets", {"names": [[c] for c in chars1], "rows": srows}, exhaustive=False, tag="sets")
+    for rep in reports:
+        body = "".join(rep["b"])
+        if not rep["well"]:
+            raise MachineryError(f"[{body}] is not one set token for Privacy.tla's tokeniser")
+        if not rep["real_is_ref"]:
+            ctx.violation({"invariant": "SetAndItsNegationAreComplements", "kind": "sets", "body": body, "names": chars1,
+                           "expected": {"[seq] accepts": [chars1[i - 1] for i in rep["lit"]],
+                                        "or, read as a range": [chars1[i - 1] for i in rep["rng"]] if rep["amb"] else None,
+                                        "[!seq] accepts": "the other characters"},
+                           "observed": {"[%s]" % body: [chars1[i - 1] for i in rep["pos"]] if not rep["epos"] else "exception",
+                                        "[!%s]" % body: [chars1[i - 1] for i in rep["neg"]] if not rep["eneg"] else "exception"},
+                           "key": f"sets:{body}"})
+        elif not rep["real_is_impl"]:
+            ctx.drift_note({"kind": "sets", "body": body, "pos": rep["pos"], "neg": rep["neg"]})
+    ctx.traces += len(srows)
+    ctx.evaluations += 2 * len(srows) * len(chars1)
+    nontrivial += 2 * len(srows) * len(chars1)
+    ctx.extra["match_tables"].append({"space": "[seq] / [!seq], seq <= 3, one-character names over the pattern alphabet",
+                                      "sets": len(srows), "with_an_inner_dash": sum(1 for b in bodies if "-" in b[1:-1])})
+
     # negative control: one corrupted cell of a real table must be reported by TLC, and only that row
     names = list(seqs(NAME_ALPHA, 3))
     rows = [real_match_row(p, names) for p in seqs(PAT_ALPHA, 2)]
@@ -278,7 +307,7 @@ def part_match(ctx: Ctx, rng: random.Random) -> int:
 
 # ---------------------------------------------------------------------- part 2: precedence of rules
 RULE_NAMES = ["a", "_a", "a.c", "a._c", "a.c._m", "a.c.__d__", "a.c.__p", "b.c", "b._c.m", "_a.c.m",
-              "a.c._v.setter", "a.c.v.deleter"]
+              "a.c._v.setter", "a.c.v.deleter", "a.c.__init__"]
 # objects whose OWN name has a dot in it (the builder names the setter of property _v "_v.setter")
 OWN_NAMES = {"a.c._v.setter": "_v.setter", "a.c.v.deleter": "v.deleter"}
 
@@ -287,11 +316,13 @@ def name_json(full: str, own: str | None = None) -> Dict[str, Any]:
     own = own if own is not None else OWN_NAMES.get(full, full.rpartition(".")[2])
     return {"f": list(full), "o": list(own)}
 # the 8th is a pattern made of a set only (no * or ?): it must still be treated as a pattern (a.[bc] matches a.c)
-MATCH_STRINGS = ["a.c", "a.*", "**", "*._c", "**.__*__", "a.c._m", "?.c", "a.[bc]", "**.m", "[!b].c._m", "a.c.*"]
+# the 9th is the manual's own example of a rule that designates constructors (PUBLIC:**.__init__)
+MATCH_STRINGS = ["a.c", "a.*", "**", "*._c", "**.__*__", "a.c._m", "?.c", "a.[bc]", "**.__init__", "a.c.__init__",
+                 "**.m", "[!b].c._m", "a.c.*"]
 
 
 def part_rules(ctx: Ctx, rng: random.Random) -> int:
-    nstr = 8 if ctx.quick else 10
+    nstr = 9 if ctx.quick else 10
     universe = [(lv, p) for p in MATCH_STRINGS[:nstr] for lv in LEVELS]
     maxrules = 2 if ctx.quick else 3
     lists: List[Tuple[Tuple[str, str], ...]] = [t for m in range(maxrules + 1) for t in itertools.product(universe, repeat=m)]
@@ -760,6 +791,14 @@ def replay(ctx: Ctx, path: str) -> int:
             for i, n in enumerate(names):
                 if n in w["expected"] and ((i + 1) in row["m"]) != w["expected"][n]:
                     bad.append({n: (i + 1) in row["m"]})
+    elif w.get("kind") == "sets":
+        pos, neg = real_match_row("[" + w["body"] + "]", w["names"]), real_match_row("[!" + w["body"] + "]", w["names"])
+        if pos["e"] != neg["e"] or (not pos["e"] and (set(pos["m"]) & set(neg["m"])
+                                                     or set(pos["m"]) | set(neg["m"]) != set(range(1, len(w["names"]) + 1)))):
+            bad.append({"pos": pos, "neg": neg})
+        lit = [i + 1 for i, c in enumerate(w["names"]) if c in w["body"]]
+        if not pos["e"] and "-" not in w["body"][1:-1] and pos["m"] != lit:
+            bad.append({"pos": pos["m"], "expected": lit})
     elif w.get("kind") == "rules":
         rules = [tuple(r) for r in w["rules"]]
         got = real_rules_row(rules, w["names"])
